@@ -322,6 +322,8 @@ def main(argv):
     for rel, hname, kw, err in violations:
       print('VIOLATION property=%s replay=%s' % (pid, os.path.join(ROOT, rel)))
       print('  harness=%s args=%s' % (hname, json.dumps(kw, default=repr)[:600]))
+    for i in sorted(set(map(str, infra)))[:6]:
+      print('note (harness error, not counted): ' + i[:600])
     return 1
   if infra:
     for i in sorted(set(map(str, infra)))[:12]:
